@@ -6,7 +6,7 @@ SEEDS=${@:-20260926}
 rc=0
 for s in $SEEDS; do
   for p in C01 C02 C03 C04 C05 C06 C07 C08 C09 C10 C11 C12 C13 C14 C15 C16 C17 C18 C19 C20; do
-    out=$(VERIF_SEED=$s timeout 7200 ./check $p --tier $TIER 2>&1); e=$?
+    out=$(VERIF_SEED=$s timeout 7200 ./check $p --tier $TIER $EXTRA 2>&1); e=$?
     echo "seed=$s $(echo "$out" | tail -1) rc=$e"
     echo "$out" | grep "^VIOLATION" | head -3
     [ $e != 0 ] && rc=1
